@@ -286,17 +286,18 @@ Fixpoint contiguous (l : list (Z * Z)) : bool :=
   end.
 
 (* the sub-table of parameter p that contains row r (rows agreeing with r on the other parameters' left edges):
-   it must show every distinct left edge of p (len(set(start)) < n_p_total -> ValueError; n = n_p_total) and be
-   contiguous *)
+   it must show every distinct left edge of p (len(set(start)) < n_p_total -> ValueError; n = n_p_total), reach the
+   parameter's overall largest right edge (end.max() != data[p_end].max() -> ValueError; mr = that maximum; added by
+   fix 1620b43e, finding F-AC) and be contiguous *)
 Definition sub_of (G : list row) (p : nat) (r : row) : list row :=
   filter (fun r' => eq_except p (starts r) (starts r')) G.
 Definition bins_of (T : list row) (p : nat) : list (Z * Z) := map (fun r' => (start p r', stop p r')) T.
-Definition check_sub (G : list row) (p : nat) (n : nat) (r : row) : bool :=
+Definition check_sub (G : list row) (p : nat) (n : nat) (mr : Z) (r : row) : bool :=
   let T := sub_of G p r in
-  (n <=? length (edges T p))%nat && contiguous (sort_bins (bins_of T p)).
+  (n <=? length (edges T p))%nat && (col_max (map (stop p) T) =? mr) && contiguous (sort_bins (bins_of T p)).
 
 Definition check_complete (G : list row) (k : nat) : bool :=
-  forallb (fun p => let n := length (edges G p) in forallb (check_sub G p n) G) (seq 0 k).
+  forallb (fun p => let n := length (edges G p) in let mr := max_right G p in forallb (check_sub G p n mr) G) (seq 0 k).
 
 (* the key tuples present in the data: one Order0Interp (and one validation) each *)
 Definition keys_of (d : list row) : list (list Z) := sort_keys (map rkeys d).
@@ -308,15 +309,11 @@ Definition valid (k : nat) (d : list row) : bool :=
 (* representation invariant of a DataFrame: every row has a cell in every parameter column *)
 Definition shaped (k : nat) (d : list row) : bool := forallb (fun r => (length (rbins r) =? k)%nat) d.
 
-(* NOT checked by the code: rows with the same left edge have the same right edge (matters for the last bin only -
-   the inner ones are forced by contiguity).  Part of "well-formed binned data". *)
-Definition ends_agree_group (G : list row) (k : nat) : bool :=
-  forallb (fun p => forallb (fun r => forallb (fun r' =>
-    implb (start p r =? start p r') (stop p r =? stop p r')) G) G) (seq 0 k).
-Definition ends_agree (k : nat) (d : list row) : bool :=
-  forallb (fun key => ends_agree_group (group d key) k) (keys_of d).
-
-Definition wf (k : nat) (d : list row) : bool := shaped k d && valid k d && ends_agree k d.
+(* well-formed binned data = a frame (every row has a cell in every parameter column) accepted by the validation.
+   (Before fix 1620b43e the validation did not compare the covered ranges of the sub-tables and "rows with the same
+   left edge have the same right edge" had to be assumed separately; it is now a consequence - LookupProofs.v,
+   [valid_ends_agree].) *)
+Definition wf (k : nat) (d : list row) : bool := shaped k d && valid k d.
 
 (* ------------------------------------------------------------------------------------------------------------ *)
 (* CategoricalTable.call                                                                                        *)
